@@ -104,6 +104,10 @@ func C05(ctx *core.Ctx, r *core.Report) {
 	c05FormatCoverage(ctx, r)
 	c05NoCrash(ctx, r)
 	c05MinMax(ctx, r)
+	c05BoundsExact(ctx, r)
+	// the type check of written values is one of the registered constraints: it must survive
+	// every later registration and be inherited by every child set
+	c07Accumulate(ctx, r)
 	// the comparison of a value with a range bound is made on exact numbers
 	var rn []*ssa.Function
 	for _, f := range ctx.RepoFuncs() {
@@ -419,4 +423,99 @@ var c05ConvTriage = map[string]string{
 	"meta.RangeNumber.getInt64/float64→int64":    "reached only when a range bound is written with a fraction on an integer type, which RFC 7950 9.2.4 does not allow (bounds are of the restricted type)",
 	"meta.RangeNumber.getUnit64/float64→uint64":  "as above for uint64; the operand is tested >= 0 on the line before",
 	"meta.RangeNumber.getUnit64/int64→uint64":    "the operand *n.integer is tested >= 0 in the same condition (a second load of the same immutable field, which the interval reasoning does not identify with the first)",
+}
+
+// c05BoundsExact: a range or length bound is kept as the exact number that was
+// written. (a) every field of meta.RangeNumber that the comparison code reads is
+// also written by the parser of bounds — a representation that is read but
+// never filled means some class of bounds silently takes another, lossy one;
+// (b) in newRangeNumber the float parse is tried only where both integer parses
+// (signed and unsigned, 64 bits) have failed: a whole number above MaxInt64 kept
+// as float64 is rounded to a neighbouring number.
+func c05BoundsExact(ctx *core.Ctx, r *core.Report) {
+	rn := ctx.Named("meta", "RangeNumber")
+	nrn := ctx.Fn("meta", "newRangeNumber")
+	if rn == nil || nrn == nil {
+		r.Fatalf("anchors meta.RangeNumber / meta.newRangeNumber not found")
+		return
+	}
+	st := rn.Underlying().(*types.Struct)
+	read, written := map[string]bool{}, map[string]bool{}
+	for _, f := range ctx.RepoFuncs() {
+		core.Instrs(f, func(_ *ssa.BasicBlock, in ssa.Instruction) {
+			switch x := in.(type) {
+			case *ssa.FieldAddr:
+				if core.NamedOf(x.X.Type()) != rn {
+					return
+				}
+				name := st.Field(x.Field).Name()
+				for _, ref := range *x.Referrers() {
+					switch y := ref.(type) {
+					case *ssa.Store:
+						if y.Addr == ssa.Value(x) {
+							written[name] = true
+						}
+					case *ssa.UnOp:
+						read[name] = true
+					}
+				}
+			case *ssa.Field:
+				if core.NamedOf(x.X.Type()) == rn {
+					read[st.Field(x.Field).Name()] = true
+				}
+			}
+		})
+	}
+	n := 0
+	for i := 0; i < st.NumFields(); i++ {
+		name := st.Field(i).Name()
+		if !read[name] {
+			continue
+		}
+		n++
+		r.Ob("bounds-exact", "meta.RangeNumber."+name+"/filled", ctx.Pos(st.Field(i).Pos()), written[name],
+			"the comparison of a value with a range bound reads RangeNumber."+name+", but nothing ever fills it: the bounds that need this representation (e.g. whole numbers above MaxInt64 for `unsigned`) are silently kept in another, lossy one and values next to the bound are accepted or rejected wrongly")
+	}
+	r.Floor("bounds-exact", n, 5)
+	// (b)
+	var pf []ssa.CallInstruction
+	fails := map[string]ssa.CallInstruction{}
+	for _, c := range core.CallSites(nrn) {
+		if cal := core.StaticCallee(c); cal != nil {
+			switch core.FnName(cal) {
+			case "strconv.ParseFloat":
+				pf = append(pf, c)
+			case "strconv.ParseInt", "strconv.ParseUint":
+				if bits, ok := core.ConstInt(c.Common().Args[2]); ok && bits == 64 {
+					fails[core.FnName(cal)] = c
+				}
+			}
+		}
+	}
+	for _, c := range pf {
+		missing := []string{}
+		for _, want := range []string{"strconv.ParseInt", "strconv.ParseUint"} {
+			ic, ok := fails[want]
+			okDom := false
+			if ok {
+				ev := errResult(ic)
+				for _, pc := range core.PathConds(c.Block()) {
+					if bo, isBin := pc.V.(*ssa.BinOp); isBin && ev != nil && dependsOn(bo, ev, 0) {
+						// on the side where err != nil
+						if (bo.Op == token.EQL && !pc.True) || (bo.Op == token.NEQ && pc.True) {
+							okDom = true
+						}
+					}
+				}
+			}
+			if !okDom {
+				missing = append(missing, want)
+			}
+		}
+		r.Ob("bounds-exact", "meta.newRangeNumber/float-only-after-integers-failed", ctx.Pos(c.Pos()), len(missing) == 0,
+			"a bound is parsed as float64 without "+strings.Join(missing, " and ")+" (64 bits) having been tried and failed on that text first: a whole-number bound that float64 cannot represent (above 2^53, e.g. the uint64 limits) is rounded")
+	}
+	if len(pf) == 0 {
+		r.Infof("meta.newRangeNumber no longer parses floats")
+	}
 }
